@@ -18,18 +18,8 @@ def pTrees : List Err → List String
   | e :: r => pTree e :: pTrees r
 end
 
-mutual
-/-- visible nodes in pre-order (node, then its cause / its branches) -/
-def nodes : Err → List Err
-  | .leaf id k => [.leaf id k]
-  | .barrier id m h => [.barrier id m h]
-  | .wrap id k c => .wrap id k c :: nodes c
-  | .second id c s => .second id c s :: nodes c
-  | .multi id k cs => .multi id k cs :: nodesL cs
-def nodesL : List Err → List Err
-  | [] => []
-  | e :: r => nodes e ++ nodesL r
-end
+/-- visible nodes in pre-order -/
+def nodes (e : Err) : List Err := reach e
 
 /-- references are recipes or `(node j)` = the j-th visible node of the case's error -/
 def evalRefs (fuel : Nat) (e : Option Err) : List SX → Sum Res (List (Option Err))
@@ -78,7 +68,9 @@ def obsCase (e : Option Err) (refs : List (Option Err)) : String :=
       pList ["h3tree", pOpt pTree h3],
       pList ["is", isVec (some e) refs],
       pList ["h1is", isVec h1 refs],
-      pList ["h2is", isVec h2 refs]]
+      pList ["h2is", isVec h2 refs],
+      pList ["isany", pBool (isAnyB Full e refs)],
+      pList ["isanyhalf", pBool (isAnyB Full e (refs.take (refs.length / 2)))]]
 
 def runLine (line : String) : String :=
   match parseLine line with
